@@ -206,9 +206,12 @@ def replay(pid, path):
     c = data["case"]
     ir = pyopt_one(G, c) if (isinstance(c, dict) and c.get("_pyopt")) else impl_call(G.impl, c)
     mr = run_driver_parallel([G.request(c)])[0]
-    diff = G.compare(c, ir, mr)
+    frag = bool(getattr(G, "fragile", lambda *_: False)(c, ir, mr))
+    oos = (not frag) and scope.excluded(G.NAME, c, ir, mr)
+    diff = None if (frag or oos) else G.compare(c, _same_err_kinds(ir), _same_err_kinds(mr))
     v = oracle(c, ir) if oracle else None
-    print(json.dumps({"impl": ir, "model": mr, "diff": diff, "oracle": v}, indent=1, default=str))
+    print(json.dumps({"impl": ir, "model": mr, "diff": diff, "oracle": v, "fragile": frag, "out_of_scope": bool(oos)},
+                     indent=1, default=str))
     if v:
         print(f"VIOLATION property={pid} replay={path}")
         return 1
